@@ -53,6 +53,7 @@ type gGrammar struct {
 			El bool   `json:"el"`
 		} `json:"toks"`
 	} `json:"inputs"`
+	MaxIter  int   `json:"maxiter"`
 	Ks       []int `json:"ks"`
 	CI       bool  `json:"ci"`
 	Trailing bool  `json:"trailing"`
@@ -368,6 +369,9 @@ func parseRun(args []string) error {
 	for gi := range gs {
 		g := &gs[gi]
 		started := time.Now()
+		if g.MaxIter > 0 {
+			participle.MaxIterations = g.MaxIter // package-level limit on group repetitions (default 1000000)
+		}
 		for ki, k := range g.Ks {
 			b, err := build(g, k)
 			if err != nil {
